@@ -59,6 +59,7 @@ type Engine struct {
 	redirects map[string]string
 	ackApps   map[string][]ackApp
 	mergeStat map[*ssa.If]*mergeStat
+	pruneSeq   int
 	validCache map[string]bool
 	assertSeen map[int]bool
 	axioms    []*Term
@@ -232,7 +233,7 @@ func (e *Engine) feas(st *State, c *Term) (t, f bool, mT, mF Model) {
 		case Sat:
 			t, mT = true, m
 		case Unsat:
-			t = false
+			t = !e.crossCheckPrune(st, c)
 		default:
 			t = true // unknown: keep the branch (a spurious path cannot produce a confirmed violation)
 			e.res.UnknownFeas++
@@ -244,13 +245,33 @@ func (e *Engine) feas(st *State, c *Term) (t, f bool, mT, mF Model) {
 		case Sat:
 			f, mF = true, m
 		case Unsat:
-			f = false
+			f = !e.crossCheckPrune(st, Not(c))
 		default:
 			f = true
 			e.res.UnknownFeas++
 		}
 	}
 	return
+}
+
+// crossCheckPrune: an unsat feasibility answer prunes a branch, so a wrong one
+// would hide paths. In thorough mode a sample of them (every 40th) is re-run
+// on cvc5 and z3 4.8.12; it reports false (do not prune) on disagreement.
+func (e *Engine) crossCheckPrune(st *State, c *Term) bool {
+	if !e.cfg.CrossCheck {
+		return true
+	}
+	e.pruneSeq++
+	if e.pruneSeq%40 != 0 {
+		return true
+	}
+	r, _, by := e.solver.Escalate(st.feasPC(), c, 30, false, []string{"cvc5", "z3-4.8.12"})
+	e.solver.Stats.CrossCheck++
+	if r == Sat {
+		e.solver.Stats.Disagree = append(e.solver.Stats.Disagree, fmt.Sprintf("pruned branch: live solver unsat, %s sat", by))
+		return false
+	}
+	return true
 }
 
 // decide returns the truth value of c on this path, forking if both values
